@@ -117,33 +117,33 @@ def cAst : LExpr :=
        [.comparison (.field 0 []) (.ordering .eq (.int (-5))),
         .comparison (.field 1 []) .isTrue]))]
 
-theorem cRenders₁ : Renders (atoms cScheme) true cSk₁ cText₁ :=
+theorem cRenders₁ : Renders cEnv (atoms cScheme) true cSk₁ cText₁ :=
   Renders.cast
     (.chain (.atom aPortWord)
       (.cons (o := .and) [' '] "and" [' '] rfl (by decide) rfl rfl
-        (.not "not" [' '] (by decide) rfl
+        (.not "not" [' '] (by decide) rfl rfl
           (.paren [] [] rfl rfl
             (.chain (.atom aISym)
               (.cons (o := .or) [' '] "or" [' '] rfl (by decide) rfl rfl (.atom aB) (.nil _)))))
         (.nil _)))
     (by rw [txt_aPortWord, txt_aISym, txt_aB]; rfl)
 
-theorem cRenders₂ : Renders (atoms cScheme) true cSk₂ cText₂ :=
+theorem cRenders₂ : Renders cEnv (atoms cScheme) true cSk₂ cText₂ :=
   Renders.cast
     (.chain (.atom aPortSym)
       (.cons (o := .and) [] "&&" [] rfl (by decide) rfl rfl
-        (.not "!" [] (by decide) rfl
+        (.not "!" [] (by decide) rfl (by decide)
           (.paren [] [] rfl rfl
             (.chain (.atom aIWord)
               (.cons (o := .or) [] "||" [] rfl (by decide) rfl rfl (.atom aB) (.nil _)))))
         (.nil _)))
     (by rw [txt_aPortSym, txt_aIWord, txt_aB]; rfl)
 
-theorem cRenders₃ : Renders (atoms cScheme) true cSk₃ cText₃ :=
+theorem cRenders₃ : Renders cEnv (atoms cScheme) true cSk₃ cText₃ :=
   Renders.cast
     (.chain (.atom aPortHex)
       (.cons (o := .and) ['\n'] "&&" [' '] rfl (by decide) rfl rfl
-        (.not "not" [] (by decide) rfl
+        (.not "not" [] (by decide) rfl rfl
           (.paren [' '] [' '] rfl rfl
             (.chain (.atom aIWord)
               (.cons (o := .or) [' '] "or" [' '] rfl (by decide) rfl rfl (.atom aB) (.nil _)))))
@@ -162,7 +162,7 @@ def cAst₄ : LExpr :=
     [.comparison (.field 4 []) (.ordering .eq (.bytes { fmt := .quoted, data := [97, 46, 34, 122] })),
      .comparison (.field 3 []) (.ordering .ne (.ip (.v4 167772161)))]
 
-theorem cRenders₄ : Renders (atoms cScheme) false cSk₄ cText₄ :=
+theorem cRenders₄ : Renders cEnv (atoms cScheme) false cSk₄ cText₄ :=
   Renders.cast
     (.chain (.atom aHost)
       (.cons (o := .or) [' '] "or" [' '] rfl (by decide) rfl rfl (.atom aSrc) (.nil _)))
@@ -183,10 +183,10 @@ theorem txt_aI5Sym : (atoms cScheme).txt aI5Sym = "i==5".toList := by
   show "i".toList ++ ([] ++ ("==".toList ++ ([] ++ digits 10 5))) = _
   rw [digits10_5]; rfl
 
-theorem cRenders₅ : Renders (atoms cScheme) false (.atom aI5Word) "i eq5".toList :=
+theorem cRenders₅ : Renders cEnv (atoms cScheme) false (.atom aI5Word) "i eq5".toList :=
   Renders.cast (.simple (.atom aI5Word)) txt_aI5Word
 
-theorem cRenders₆ : Renders (atoms cScheme) false (.atom aI5Sym) "i==5".toList :=
+theorem cRenders₆ : Renders cEnv (atoms cScheme) false (.atom aI5Sym) "i==5".toList :=
   Renders.cast (.simple (.atom aI5Sym)) txt_aI5Sym
 
 end WfModel.Atoms
